@@ -28,6 +28,29 @@ ATTRS = ['geometries', 'controllers', 'animations', 'lights', 'cameras', 'images
          'materials', 'nodes', 'scenes']
 
 
+class IterableFails(Exception):
+    pass
+
+
+def make_iterable(objs, form, attrs=('id',)):
+    if form == 'tuple':
+        return tuple(objs)
+    if form == 'gen':
+        return (o for o in objs)
+    if form == 'iter':
+        return iter(objs)
+    if form == 'indexedlist':
+        from collada.util import IndexedList
+        return IndexedList(objs, attrs)
+    return list(objs)
+
+
+def failing_iterable(objs):
+    for o in objs:
+        yield o
+    raise IterableFails()
+
+
 def run_case(case, which):
     import collada
     pool = {}
@@ -157,6 +180,12 @@ def run_case(case, which):
                 ref = [O(p) for p in op[1]]
             elif name == 'reverse':
                 ref.reverse()
+            elif name == 'bulk_fail':
+                ref_ok = False
+            elif name == 'extend_self':
+                ref.extend(list(ref))
+            elif name == 'reassign_rev':
+                ref.reverse()
         except (IndexError, ValueError):
             ref_ok = False
         # implementation
@@ -165,10 +194,27 @@ def run_case(case, which):
             if name == 'append':
                 L.append(O(op[1]))
             elif name == 'extend':
-                L.extend([O(p) for p in op[1]])
+                L.extend(make_iterable([O(p) for p in op[1]], op[2] if len(op) > 2 else 'list'))
             elif name == 'iadd':
-                L += [O(p) for p in op[1]]
-                setattr(doc, '_' + attr, L) if False else None
+                if stepno % 2:
+                    L += make_iterable([O(p) for p in op[1]], op[2] if len(op) > 2 else 'list')
+                else:
+                    # through the attribute: doc.lib += x  (getattr, __iadd__, setattr)
+                    exec('doc.%s += it' % attr, {'doc': doc, 'it': make_iterable([O(p) for p in op[1]], op[2] if len(op) > 2 else 'list')})
+            elif name == 'bulk_fail':
+                objs = [O(p) for p in op[2]]
+                if op[1] == 'extend':
+                    L.extend(failing_iterable(objs))
+                elif op[1] == 'iadd':
+                    L += failing_iterable(objs)
+                elif op[1] == 'reassign':
+                    setattr(doc, attr, failing_iterable(objs))
+                else:
+                    setattr(doc, attr, 5)
+            elif name == 'extend_self':
+                L.extend(L)        # (a plain list.extend(iter(self)) never terminates; the list itself is fine)
+            elif name == 'reassign_rev':
+                setattr(doc, attr, reversed(getattr(doc, attr)))
             elif name == 'insert':
                 L.insert(K(op[1]), O(op[2]))
             elif name == 'setitem':
@@ -183,11 +229,13 @@ def run_case(case, which):
             elif name == 'clear':
                 L.clear()
             elif name == 'reassign':
-                setattr(doc, attr, [O(p) for p in op[1]])
+                setattr(doc, attr, make_iterable([O(p) for p in op[1]], op[2] if len(op) > 2 else 'list'))
             elif name == 'reverse':
                 L.reverse()
         except Exception as e:  # noqa
             code = exc_code(e)
+            if name == 'bulk_fail':
+                code = 12      # which exception the failing argument raises is not the library's business
         L = getattr(doc, attr)
         now = list(L)
         obs.append([code, popped, [o.uid for o in now],
